@@ -88,4 +88,10 @@ def batchOps (disableAutoCheckpoint : Bool) (ws : Nat) (docs : List DocCall) (ft
 def skipOps (groups : List (List DocCall)) (ft : Nat) : List Op :=
   groups.flatMap (fun g => putOps g ++ [.commitSkipIndexes]) ++ [.finalizeIndexes ft]
 
+/-- the skip-index program inside batch mode: `begin_batch`; (puts; `commit_skip_indexes`)*;
+    `end_batch`; `finalize_indexes` -/
+def skipBatchOps (disableAutoCheckpoint : Bool) (ws : Nat) (groups : List (List DocCall)) (ft : Nat) : List Op :=
+  .beginBatch disableAutoCheckpoint ws ::
+    (groups.flatMap (fun g => putOps g ++ [.commitSkipIndexes]) ++ [.endBatch, .finalizeIndexes ft])
+
 end Mv.Core
